@@ -266,6 +266,9 @@ func (f *frame) chanSendOp(ch, v Value, st *State, pos token.Pos, blocking bool)
 func (f *frame) chanSend(i *ssa.Send, n *node, st *State) *State {
 	ch := f.get(i.Chan, n, st)
 	v := f.get(i.X, n, st)
+	if g := f.chanInvTerm(i.Chan, v, n, st); !g.IsTrue() {
+		f.x.oblige("chaninv", nil, st.pc, g, i.Pos(), "value sent satisfies the channel's content invariant")
+	}
 	f.chanSendOp(ch, v, st, i.Pos(), true)
 	return st
 }
@@ -299,6 +302,7 @@ func (f *frame) chanRecvOp(ch Value, st *State) (Value, *Term) {
 
 func (f *frame) chanRecv(i *ssa.UnOp, ch Value, n *node, st *State) *State {
 	val, ok := f.chanRecvOp(ch, st)
+	f.x.assume(st.pc, Implies(ok, f.chanInvTerm(i.X, val, n, st)), "channel content invariant")
 	if i.CommaOk {
 		f.setReg(i, n.Ctx, Value{T: i.Type(), C: append(append([]*Term{}, val.C...), ok)})
 	} else {
@@ -373,8 +377,13 @@ func (f *frame) selectStmt(i *ssa.Select, n *node, st *State) *State {
 			v, ok := f.chanRecvOp(cases[k].ch, b)
 			recvOk = ok
 			recvVals = v.C
+			x.assume(b.pc, Implies(ok, f.chanInvTerm(s.Chan, v, n, b)), "channel content invariant")
 		} else {
-			f.chanSendOp(cases[k].ch, f.get(s.Send, n, b), b, s.Pos, false)
+			sv := f.get(s.Send, n, b)
+			if g := f.chanInvTerm(s.Chan, sv, n, b); !g.IsTrue() {
+				x.oblige("chaninv", nil, b.pc, g, s.Pos, "value sent satisfies the channel's content invariant")
+			}
+			f.chanSendOp(cases[k].ch, sv, b, s.Pos, false)
 		}
 		_ = recvVals
 		outs = append(outs, b)
@@ -413,3 +422,40 @@ func (f *frame) selectStmt(i *ssa.Select, n *node, st *State) *State {
 }
 
 var _ = ssa.NaiveForm
+
+// chanField identifies the struct field a channel operand was loaded from.
+func chanField(v ssa.Value) string {
+	switch u := v.(type) {
+	case *ssa.UnOp:
+		if u.Op == token.MUL {
+			if fa, ok := u.X.(*ssa.FieldAddr); ok {
+				st := deref(fa.X.Type())
+				return regionBase(st) + "." + st.Underlying().(*types.Struct).Field(fa.Field).Name()
+			}
+		}
+	case *ssa.Field:
+		st := u.X.Type()
+		return regionBase(st) + "." + st.Underlying().(*types.Struct).Field(u.Field).Name()
+	case *ssa.ChangeType:
+		return chanField(u.X)
+	}
+	return ""
+}
+
+// chanInvTerm evaluates the declared content invariant of a channel for value v.
+func (f *frame) chanInvTerm(chv ssa.Value, v Value, n *node, st *State) *Term {
+	fld := chanField(chv)
+	if fld == "" {
+		return TTrue
+	}
+	var out []*Term
+	for _, ci := range f.x.S.ChanInvs {
+		if ci.Field != fld {
+			continue
+		}
+		sc := f.x.newSpecCtx(f, n, st, f.x.entryState)
+		sc.vars[ci.Var] = v
+		out = append(out, sc.evalBool(ci.C.Expr))
+	}
+	return And(out...)
+}
